@@ -221,6 +221,7 @@ class Program:
                 if root in self.fns:
                     self.fns[root].closures.append(fn)
         self.inlined_consts = inline_literal_consts(self)
+        self.field_groups = flatten_field_groups(self)
         self.field_renames = canonicalise_fields(self)
         self.fn_renames = canonicalise_fns(self)
 
@@ -467,6 +468,98 @@ def inline_literal_consts(prog):
         if fn.body is not None and fn.crate in LIB_CRATES and not str(fn.dk).startswith("Const"):
             rewrite(fn.body)
     return {p: b["lit"].get("v") for p, b in lits.items()}
+
+
+def flatten_field_groups(prog):
+    """A private struct that only groups fields of one of the state structs in FIELD_ROLES (no methods of its own, used
+    as the type of exactly one field, always built by a literal where the state struct is built) is dissolved into the
+    state struct: `self.table.ids` becomes `self.ids`.  The rules then see the same places whether or not a refactoring
+    bundled two fields.  Returns {state struct: {field: group struct}} for the evidence."""
+    done = {}
+    for adt in FIELD_ROLES:
+        a = prog.adts.get(adt)
+        if a is None or not a.get("variants"):
+            continue
+        fields = a["variants"][0]["fields"]
+        for f in list(fields):
+            gname = (f["ty"] or "").split("<")[0]
+            g = prog.adts.get(gname)
+            if g is None or gname in FIELD_ROLES or g.get("crate") != a.get("crate") or str(g.get("kind")).lower() != "struct" or not g.get("variants"):
+                continue
+            if "Public" in str(g.get("vis")) or not gname.startswith(adt.rsplit("::", 1)[0] + "::"):
+                continue
+            # used as a field type once, no inherent methods with a self receiver
+            users = [(an, x["name"]) for an, ad in prog.adts.items() if ad.get("variants") for v in ad["variants"] for x in v["fields"] if (x["ty"] or "").split("<")[0] == gname]
+            if len(users) != 1:
+                continue
+            if any(fn.path.startswith(gname + "::") or fn.path.startswith("<" + gname + " as ") for fn in prog.fns.values() if "derive" not in (fn.d.get("x") or "")):
+                continue
+            gfields = g["variants"][0]["fields"]
+            if {x["name"] for x in gfields} & ({x["name"] for x in fields} - {f["name"]}):
+                continue
+            # every literal of the state struct gives the group as a literal
+            ok = True
+            lits = []
+            for fn in prog.fns.values():
+                if fn.body is None:
+                    continue
+                for n in walk_fn(fn):
+                    if n.get("k") == "Struct" and n.get("def") == adt:
+                        fl = [x for x in n.get("fields") or [] if x.get("f") == f["name"]]
+                        if fl and not (strip(fl[0]["e"]).get("k") == "Struct" and strip(fl[0]["e"]).get("def") == gname and not strip(fl[0]["e"]).get("base")):
+                            ok = False
+                        lits.append(n)
+            if not ok:
+                continue
+            # --- rewrite
+            idx = fields.index(f)
+            fields[idx:idx + 1] = [dict(x) for x in gfields]
+            old_mir, = [f"{adt}.{f['name']}"]
+            for fn in prog.fns.values():
+                if fn.body is not None:
+                    stack = [fn.body]
+                    while stack:
+                        n = stack.pop()
+                        if isinstance(n, dict):
+                            if n.get("k") == "Field" and isinstance(n.get("e"), dict):
+                                inner = n["e"]
+                                while inner.get("k") in ("DropTemps", "Use", "Type") and isinstance(inner.get("e"), dict):
+                                    inner = inner["e"]
+                                if inner.get("k") == "Field" and inner.get("f") == f["name"] and ((inner.get("ty") or "").split("<")[0] == gname):
+                                    n["e"] = inner["e"]
+                            if n.get("k") == "Struct" and n.get("def") == adt and isinstance(n.get("fields"), list):
+                                out = []
+                                for x in n["fields"]:
+                                    if x.get("f") == f["name"]:
+                                        out.extend(strip(x["e"])["fields"])
+                                    else:
+                                        out.append(x)
+                                n["fields"] = out
+                            stack.extend(v for v in n.values() if isinstance(v, (dict, list)))
+                        elif isinstance(n, list):
+                            stack.extend(n)
+                if fn.mir:
+                    stack = [fn.mir["blocks"]]
+                    while stack:
+                        n = stack.pop()
+                        if isinstance(n, dict):
+                            pr = n.get("proj")
+                            if isinstance(pr, list) and old_mir in pr:
+                                out = []
+                                i = 0
+                                while i < len(pr):
+                                    if pr[i] == old_mir and i + 1 < len(pr) and isinstance(pr[i + 1], str) and pr[i + 1].startswith(gname + "."):
+                                        out.append(adt + "." + pr[i + 1][len(gname) + 1:])
+                                        i += 2
+                                    else:
+                                        out.append(pr[i])
+                                        i += 1
+                                n["proj"] = out
+                            stack.extend(v for v in n.values() if isinstance(v, (dict, list)))
+                        elif isinstance(n, list):
+                            stack.extend(n)
+            done.setdefault(adt, {})[f["name"]] = gname
+    return done
 
 
 def canonicalise_fields(prog):
